@@ -172,6 +172,21 @@ Theorem C04_failed_propagates_partial : forall win specs ch st i f p l d,
                = d' ++ [Net.MixedModel.E FAILED] /\ Net.MixedModel.term_free_m Net.MixedInst.gtok d'.
 Proof. exact Net.MixedInstProofs2.xf_failed_propagates. Qed.
 
+(* Failure propagation for ARBITRARY networks of Transformer / ConditionalStep rounds (any graph, shape-regular or not,
+   any interleaving): in every reachable state, a terminated step that read a FAILED termination token in the round in
+   which it terminated — and no CANCELLED one — is FAILED ([last_heads]: the heads of its last round, read off the
+   network state).  With C04_failed_token_means_failed_step (a FAILED token is emitted only by a FAILED step) this is
+   the inductive step of "failure travels down every path along which the termination tokens are read in the
+   terminating round"; on shape-regular graphs that is every path.  (A step that terminates on a shorter input
+   before reading the failed port's token is the counterexample to the unconditional statement.) *)
+Theorem C04_failed_propagates_net : forall win specs ch st i sp x s,
+  exec imap tgspec t_ins tg_fire_spec win specs (tg_init specs) ch = Some st ->
+  nth_error specs i = Some sp -> nth_error st i = Some x -> sterm x = Some s ->
+  In (Term FAILED) (last_heads win st sp x) ->
+  ~ In (Some CANCELLED) (map tok_status (last_heads win st sp x)) ->
+  s = FAILED.
+Proof. exact tg_failed_propagates. Qed.
+
 (* Statuses.  _reduce_statuses yields FAILED/CANCELLED exactly when one of them is among its arguments; a round
    that reads a FAILED termination token (and no CANCELLED one) ends the step FAILED whatever it has emitted;
    every status a step terminates with by itself is terminal.
@@ -325,6 +340,14 @@ Example C04_run_example :
     (Some FAILED, [[Tok "0.0" 6; Term FAILED]]);
     (Some FAILED, [[Tok "0.0" 7; Term FAILED]; [Tok "0.0" 7; Term FAILED]]) ]%Z.
 Proof. vm_compute. reflexivity. Qed.
+(* in the example network the conditional step (index 1) read the transformer's FAILED token in its last round *)
+Example C04_failed_propagates_example :
+  map (fun i => match nth_error ex_specs i, nth_error (tg_run ex_win ex_specs 20) i with
+                | Some sp, Some x => last_heads ex_win (tg_run ex_win ex_specs 20) sp x
+                | _, _ => []
+                end) [1; 2]
+  = [[Term FAILED]; [Term FAILED; Tok "0.10" 2%Z]].
+Proof. vm_compute. reflexivity. Qed.
 Example C04_cancelled_becomes_skipped : get_status (reduce_o [Some CANCELLED]) true = SKIPPED.
 Proof. reflexivity. Qed.
 (* Status is an IntEnum: a data token whose value is the int 5, read in the same round as a termination token,
@@ -340,6 +363,7 @@ Print Assumptions C04_contract_gather.
 Print Assumptions C04_mixed_net_partial.
 Print Assumptions C04_contract_scatter_xf_gather.
 Print Assumptions C04_failed_propagates_partial.
+Print Assumptions C04_failed_propagates_net.
 Print Assumptions C04_mixed_net_can_complete.
 Print Assumptions C04_contract_combinator.
 Print Assumptions C04_status_bad_iff.
